@@ -32,9 +32,19 @@ structure PCfg where
   array : Bool := true
 deriving Repr
 
-/-- Readable data without floats. Lists are cons chains: `(a b . c)` is `cons a (cons b c)`;
-    `vec elems` holds a proper list; `arr rank contents` holds the nested lists slip prints after
-    `#nA`. -/
+/-- the three float formats slip has (`short-float` is `single-float`) -/
+inductive FFmt where
+  | single | double | long
+deriving DecidableEq, Repr
+
+/-- Readable data. Lists are cons chains: `(a b . c)` is `cons a (cons b c)`; `vec elems` holds a
+    proper list; `arr rank contents` holds the nested lists slip prints after `#nA`. A finite float
+    is the decimal that names it — what the shortest round-trip formatting (`strconv.AppendFloat`
+    with precision -1, `big.Float.Append`) writes: sign, significant digits (most significant first,
+    no leading or trailing zero, none for zero) and the decimal exponent of the first digit. The
+    relation between the binary value and this decimal (formatting is injective, parsing is its left
+    inverse) is outside the model: a hypothesis of `float_codec_roundtrip`, checked on the
+    implementation by the harness. -/
 inductive Obj where
   | nil
   | t
@@ -43,6 +53,7 @@ inductive Obj where
   | str (s : List Char)
   | chr (c : Char)
   | sym (name : List Char)
+  | flt (f : FFmt) (neg : Bool) (digits : List Nat) (exp : Int)
   | cons (a d : Obj)
   | vec (elems : Obj)
   | arr (rank : Nat) (contents : Obj)
@@ -236,6 +247,53 @@ def printRatio (cfg : PCfg) (num : Int) (den : Nat) : List Char :=
   if den = 1 then printInt cfg num
   else (if cfg.radix then radixPrefix cfg.base else []) ++ intText cfg.base num ++ '/' :: natText cfg.base den
 
+/-! floats: singlefloat.go / doublefloat.go / longfloat.go `Readably` -/
+
+/-- the exponent as `strconv` / `big.Float` write it in the `e` format: a sign and at least two digits -/
+def expText (e : Int) : List Char :=
+  let t := natText 10 e.natAbs
+  (if e < 0 then '-' else '+') :: (if t.length < 2 then '0' :: t else t)
+
+/-- the significand in the `e` format: one digit, then the others after a point -/
+def mantText : List Nat → List Char
+  | [] => ['0']
+  | [d] => [digitChar d]
+  | d :: r => digitChar d :: '.' :: r.map digitChar
+
+/-- the exponent marker written with `*print-readably*` (`bytes.ReplaceAll(…, 'e', marker)`) -/
+def markerOf : FFmt → Char
+  | .single => 's'
+  | .double => 'd'
+  | .long => 'L'
+
+def signText (neg : Bool) : List Char := if neg then ['-'] else []
+
+/-- the `e` format with the shortest digits and the given exponent marker -/
+def floatE (marker : Char) (neg : Bool) (ds : List Nat) (e : Int) : List Char :=
+  signText neg ++ mantText ds ++ marker :: expText e
+
+/-- the `f` format with the shortest digits (`%g` inside its range) -/
+def floatF (neg : Bool) (ds : List Nat) (e : Int) : List Char :=
+  signText neg ++
+    (match ds with
+     | [] => ['0']
+     | _ =>
+       if e < 0 then '0' :: '.' :: List.replicate (e.natAbs - 1) '0' ++ ds.map digitChar
+       else
+         let n := e.natAbs + 1
+         let ip := (ds.take n ++ List.replicate (n - ds.length) 0).map digitChar
+         match ds.drop n with
+         | [] => ip
+         | fp => ip ++ '.' :: fp.map digitChar)
+
+/-- `Readably` of the float types: with `*print-readably*` the `e` format with the marker of the
+    format; otherwise `%g` (`e` format when the exponent is below -4 or at least 6 — the default
+    `*print-precision*` -1 asks for the shortest digits —, plain marker `e`) -/
+def printFloat (cfg : PCfg) (f : FFmt) (neg : Bool) (ds : List Nat) (e : Int) : List Char :=
+  if cfg.readably then floatE (markerOf f) neg ds e
+  else if ds ≠ [] ∧ (e < -4 ∨ 6 ≤ e) then floatE 'e' neg ds e
+  else floatF neg ds e
+
 /-- ojg `AppendJSONString` (used by string.go `Readably` when `*print-readably*`) -/
 def strEsc (c : Char) : List Char :=
   let n := c.toNat
@@ -311,6 +369,7 @@ mutual
     | .str s => printStr cfg s
     | .chr c => printChr c
     | .sym name => printSym cfg name
+    | .flt f neg ds e => printFloat cfg f neg ds e
     | .cons a d => '(' :: printFlat cfg a ++ printTail cfg d
     | .vec elems => printVec cfg elems
     | .arr rank contents => printArr cfg rank contents
@@ -324,6 +383,7 @@ mutual
     | .str s => ' ' :: '.' :: ' ' :: printStr cfg s ++ [')']
     | .chr c => ' ' :: '.' :: ' ' :: printChr c ++ [')']
     | .sym name => ' ' :: '.' :: ' ' :: printSym cfg name ++ [')']
+    | .flt f neg ds e => ' ' :: '.' :: ' ' :: printFloat cfg f neg ds e ++ [')']
     | .vec elems => ' ' :: '.' :: ' ' :: printVec cfg elems ++ [')']
     | .arr rank contents => ' ' :: '.' :: ' ' :: printArr cfg rank contents ++ [')']
   /-- a vector with the given element list -/
@@ -352,7 +412,7 @@ inductive RErr where
   | badEscape
   | badChar        -- `#\…` that names no character
   | badNumber      -- `#b…` that is no number of that base
-  | float          -- a float token (outside this model)
+  | float          -- a float token whose exponent cannot be parsed
   | fuel
 deriving DecidableEq, Repr
 
@@ -473,7 +533,41 @@ def readRadix (b : Nat) (r : List Char) : R (Obj × List Char) :=
   if termOrEnd rest then mapOk (fun o => (o, rest)) (radixNumber b tok)
   else .error .unexpected
 
-/-- code.go `resolveToken` (without times and floats) -/
+/-- the format an exponent marker selects (code.go `resolveToken`: `d` double, `s` and `f` single,
+    `l` long; `e` or no exponent: `*read-default-float-format*`, here the standard `double-float`) -/
+def fmtOfMarker (m : Char) : FFmt :=
+  if m = 's' ∨ m = 'f' then .single else if m = 'l' then .long else .double
+
+def dropTrailingZeros (ds : List Nat) : List Nat :=
+  (ds.reverse.dropWhile (· == 0)).reverse
+
+/-- a float token (lower case, already matched by `isDecimalTok` or `isExpTok`) as the decimal it
+    denotes: the digits without leading and trailing zeros and the exponent of the first one -/
+def parseFloatTok (low : List Char) : R Obj :=
+  let neg := low.head? == some '-'
+  let body := stripSign low
+  let ip := body.takeWhile (isDigitB 10)
+  let r1 := body.dropWhile (isDigitB 10)
+  let fp := match r1 with
+    | '.' :: fs => fs.takeWhile (isDigitB 10)
+    | _ => []
+  let r2 := match r1 with
+    | '.' :: fs => fs.dropWhile (isDigitB 10)
+    | r => r
+  let fx : FFmt × Option Int := match r2 with
+    | [] => (.double, some 0)
+    | m :: e => (fmtOfMarker m, parseSigned 10 e)
+  match fx.2 with
+  | none => .error .float
+  | some x =>
+    let all := (ip ++ fp).map (fun c => c.toNat - 48)
+    let k := (all.takeWhile (· == 0)).length
+    let ds := dropTrailingZeros (all.dropWhile (· == 0))
+    match ds with
+    | [] => .ok (.flt fx.1 neg [] 0)
+    | _ => .ok (.flt fx.1 neg ds ((ip.length : Int) + x - 1 - (k : Int)))
+
+/-- code.go `resolveToken` (without times) -/
 def classifyTok (rbase : Nat) (tok : List Char) : R Obj :=
   let low := tok.map lowerC
   if tok = ['t'] ∨ tok = ['T'] then .ok .t
@@ -483,7 +577,7 @@ def classifyTok (rbase : Nat) (tok : List Char) : R Obj :=
     match parseSigned rbase body with
     | some n => .ok (.int n)
     | none => .ok (.sym tok)
-  else if isDecimalTok low || isExpTok low then .error .float
+  else if isDecimalTok low || isExpTok low then parseFloatTok low
   else if isRatioTok rbase low then
     let num := low.takeWhile (fun c => c != '/')
     let den := (low.dropWhile (fun c => c != '/')).drop 1
@@ -616,6 +710,7 @@ def objEq : Obj → Obj → Bool
   | .str a, .str b => a == b
   | .chr a, .chr b => a == b
   | .sym a, .sym b => symEq a b
+  | .flt f n ds e, .flt f' n' ds' e' => f == f' && n == n' && ds == ds' && e == e'
   | .cons a d, .cons a' d' => objEq a a' && objEq d d'
   | .vec a, .vec b => objEq a b
   | .arr r a, .arr r' b => r == r' && objEq a b
@@ -630,6 +725,7 @@ def objEq : Obj → Obj → Bool
 
 inductive TypeOf where
   | null | t | fixnum | bignum | ratio | string | character | symbol | cons | vector | array
+  | singleFloat | doubleFloat | longFloat
 deriving DecidableEq, Repr
 
 def typeOf : Obj → TypeOf
@@ -640,6 +736,9 @@ def typeOf : Obj → TypeOf
   | .str _ => .string
   | .chr _ => .character
   | .sym _ => .symbol
+  | .flt .single _ _ _ => .singleFloat
+  | .flt .double _ _ _ => .doubleFloat
+  | .flt .long _ _ _ => .longFloat
   | .cons _ _ => .cons
   | .vec _ => .vector
   | .arr _ _ => .array
@@ -660,7 +759,13 @@ def isList : Obj → Bool
   | .cons _ d => isList d
   | _ => false
 
-/-- readable data as the round-trip theorem takes it: ratios in lowest terms with a denominator of
+/-- the decimal of a finite float in canonical form: decimal digits, no leading or trailing zero;
+    zero has no digits and exponent 0 -/
+def FloatWF (ds : List Nat) (e : Int) : Prop :=
+  (∀ d ∈ ds, d < 10) ∧ ds.head? ≠ some 0 ∧ ds.getLast? ≠ some 0 ∧ (ds = [] → e = 0)
+
+/-- readable data as the round-trip theorem takes it: floats are finite and given by their canonical
+    decimal; ratios in lowest terms with a denominator of
     at least 2; not the character with code 0; no symbol spelled `t` or `nil` (they denote the
     constants); no symbol `.` as an element of a list (the reader's `closeList` takes it for the
     dot of a dotted pair); vectors hold proper lists; arrays have rank ≥ 2 and non-empty contents. -/
@@ -672,6 +777,7 @@ def WF : Obj → Prop
   | .str _ => True
   | .chr c => c.toNat ≠ 0
   | .sym name => name.map lowerC ≠ ['t'] ∧ name.map lowerC ≠ ['n', 'i', 'l']
+  | .flt _ _ ds e => FloatWF ds e
   | .cons a d => WF a ∧ a ≠ dotSym ∧ WF d
   | .vec e => isList e = true ∧ WF e
   | .arr r c => 2 ≤ r ∧ isList c = true ∧ c ≠ .nil ∧ WF c
